@@ -231,8 +231,10 @@ fn one_try(p: &Plan, grace: Duration, dir: &std::path::Path, rep: &mut Report) {
             *victim_sock.lock().unwrap() = Some(socks[1].try_clone().map_err(|e| inc(format!("clone: {e}")))?);
             socks[0].write_all(&burst(0, p.bursts[0])).map_err(|e| inc(format!("write: {e}")))?;
             let n0 = p.bursts[0] as usize;
-            read_frames(&mut socks[1], 1).map_err(|e| inc(format!("victim: {e}")))?;
+            // (the flooder's answers first: a client that does not take its answers would stall the server on a full
+            // socket after a few hundred of them, whatever happens to the victim)
             read_frames(&mut socks[0], n0).map_err(|e| inc(format!("flooder: {e}")))?;
+            read_frames(&mut socks[1], 1).map_err(|e| inc(format!("victim: {e}")))?;
             let lg = log.lock().unwrap().clone();
             let at = armed.load(Ordering::SeqCst);
             let Some(served) = lg.iter().position(|e| *e == (1, 1)) else {
@@ -337,7 +339,9 @@ pub fn run(cfg: &Cfg) -> Report {
             inject_at: None,
         };
         // every eighth plan: a long burst with a call arriving in the middle of it
-        let p = if k % 8 == 3 { Plan { bursts: vec![rng.range(300, 500) as u32], victims: 1, inject_at: Some(rng.range(2, 40) as u32), ..p } } else { p };
+        // (not on the multi-threaded runtime: there the reactor runs on another thread, and when that thread gets the
+        // processor is not the server's doing)
+        let p = if k % 8 == 3 && p.kind != Kind::TokioMulti { Plan { bursts: vec![rng.range(300, 500) as u32], victims: 1, inject_at: Some(rng.range(2, 40) as u32), ..p } } else { p };
         if p.inject_at.is_some() {
             rep.count("real_socket_long_burst_cases");
         }
